@@ -1990,6 +1990,8 @@ func sortedKeys(m map[string]bool) []string {
 func wellKnownGlobal(st *State, x *ssa.Global) (Value, bool) {
 	mkBig := func(n uint64) Value { return Ptr{Obj: st.alloc(Big{Neg: False, Mag: BVu(n, bigW)})} }
 	switch x.String() {
+	case "encoding/base64.RawURLEncoding", "encoding/base64.StdEncoding", "encoding/base64.URLEncoding", "encoding/base64.RawStdEncoding":
+		return Opq{"base64 encoding"}, true
 	case "github.com/ethereum/go-ethereum/common.Big0":
 		return mkBig(0), true
 	case "github.com/ethereum/go-ethereum/common.Big1":
